@@ -142,6 +142,7 @@ def walk(ctx, impl, rng):
             return
         if has_meas and len(POOL) < 400 and rng.random() < 0.5:
             POOL.append((n, impl.ops_of(st), int(st.r)))
+    ctx.traces += 1
     ctx.case(str(hist), has_meas, sample=dict(op='walk', N=n, start=kind, steps=[h[0] for h in hist[1:]], final_r=int(st.r)))
 
 
